@@ -169,7 +169,8 @@ def run_shard(vh, cases, cwd=None, env=None, per_case_timeout=20.0, keep_stdout=
             open(jf, "w").close()
             so = open(os.path.join(d, "stdout%d" % attempt), "wb") if keep_stdout else subprocess.DEVNULL
             se = open(os.path.join(d, "stderr%d" % attempt), "wb")
-            p = subprocess.Popen([vh, "probe", cf, of, jf], cwd=cwd, env=e, stdout=so, stderr=se, stdin=subprocess.DEVNULL)
+            one_cpu = (lambda: os.sched_setaffinity(0, {sorted(os.sched_getaffinity(0))[0]})) if e.get("VF_ONE_CPU") else None   # a process that sees a single CPU
+            p = subprocess.Popen([vh, "probe", cf, of, jf], cwd=cwd, env=e, stdout=so, stderr=se, stdin=subprocess.DEVNULL, preexec_fn=one_cpu)
             # watchdog: no growth of the obs file for per_case_timeout seconds => the journalled case hangs
             last_size, last_t, hung = -1, time.time(), False
             while True:
